@@ -4,7 +4,8 @@
    [firstn k frame] = the first k bytes of the response, then end-of-stream. *)
 From Coq Require Import List NArith ZArith Bool.
 From KV Require Import Lib.Bits Lib.Bytes Model.Legacy Model.ConnOps.
-From KV Require Import Proofs.ConnOpsBase Proofs.ConnOpsCodec Proofs.ConnOpsProofs Proofs.ConnOpsWitness.
+From KV Require Import Proofs.ConnOpsBase Proofs.ConnOpsCodec Proofs.ConnOpsProofs Proofs.ConnOpsWitness
+  Proofs.ConnOpsCustom.
 Import ListNotations.
 Open Scope Z_scope.
 
@@ -21,7 +22,8 @@ Definition C17_conn_cut_full_statement : Prop :=
         = (st2, RErr e, s2) /\ is_kafka e = false /\ closed st2 = true.
 
 (* proved for every operation that reads its whole response before looking at error codes
-   (all but produce, fetch, list-offsets, ApiVersions), every version, every cut position:
+   (all but produce, fetch, list-offsets, ApiVersions; for produce and list-offsets see
+   C17_conn_cut_of_success), every version, every cut position:
    the error is io.EOF or io.ErrUnexpectedEOF (never success, never a Kafka error, never a
    panic outcome) and the Conn is closed *)
 Theorem C17_conn_cut_partial : forall st a v off w k,
@@ -44,6 +46,18 @@ Theorem C17_conn_cut_consumed : forall st o s st' r s' k,
     conn_do st o (firstn k s) = (st2, RErr e, s2) /\ transport e = true /\ closed st2 = true.
 Proof. exact conn_do_cut. Qed.
 Print Assumptions C17_conn_cut_consumed.
+
+(* every operation but fetch and ApiVersions, any response on which the complete exchange
+   succeeds (for produce and list-offsets: every well-formed response without an error code,
+   C11_produce_total): every cut position yields io.EOF / io.ErrUnexpectedEOF and the Conn closes *)
+Theorem C17_conn_cut_of_success : forall st o id body st' x s' k,
+  closed st = false -> op_api o <> AFetch -> op_api o <> AApiVersions -> fits body ->
+  conn_do st o (frame id body) = (st', ROk x, s') ->
+  (k < length (frame id body))%nat ->
+  exists e st2 s2,
+    conn_do st o (firstn k (frame id body)) = (st2, RErr e, s2) /\ transport e = true /\ closed st2 = true.
+Proof. exact conn_cut_of_ok. Qed.
+Print Assumptions C17_conn_cut_of_success.
 
 (* the decoder of a well-formed response returns what was encoded and consumes exactly it *)
 Theorem C17_conn_decode_exact : forall t w, wt t w -> forall sz rest,
